@@ -16,6 +16,7 @@ CONSTANTS
   CloseConn = TRUE
   HasFallback = TRUE
   AllowClose = TRUE
+  RtoChanges = 1
   DeadlineTicks = FALSE
   OneAtATime = TRUE
   SafePool = TRUE
